@@ -2207,35 +2207,71 @@ XSLTEngineImpl::cloneToResultTree(
         case XalanNode::ATTRIBUTE_NODE:
             if (isElementPending() == true)
             {
-                // If the attribute is in a namespace, and its prefix is
-                // not declared in the result tree, then the namespace
-                // node for the prefix has to be copied as well.
+                // If the attribute is in a namespace, the prefix of its
+                // name must be bound to that namespace in the result tree.
+                // Use a prefix that's already bound to the namespace if
+                // there is one, so that attributes with the same expanded
+                // name replace each other; otherwise copy the namespace
+                // declaration, with a new prefix if the prefix is taken.
                 const XalanDOMString&   theNamespace = node.getNamespaceURI();
                 const XalanDOMString&   thePrefix = node.getPrefix();
 
+                const ECGetCachedString     theNameGuard(*m_executionContext);
+
+                XalanDOMString&     theNewName = theNameGuard.get();
+
                 if (theNamespace.empty() == false &&
                     thePrefix.empty() == false &&
-                    equals(thePrefix, DOMServices::s_XMLString) == false &&
-                    getResultNamespaceForPrefix(thePrefix) == 0)
+                    equals(thePrefix, DOMServices::s_XMLString) == false)
                 {
-                    const ECGetCachedString     theGuard(*m_executionContext);
+                    const XalanDOMString* const     theExistingPrefix =
+                        getResultPrefixForNamespace(theNamespace);
 
-                    XalanDOMString&     theDeclaration = theGuard.get();
+                    if (theExistingPrefix != 0 && theExistingPrefix->empty() == false)
+                    {
+                        if (*theExistingPrefix != thePrefix)
+                        {
+                            theNewName.assign(*theExistingPrefix);
+                        }
+                    }
+                    else
+                    {
+                        const ECGetCachedString     theGuard(*m_executionContext);
 
-                    theDeclaration.assign(DOMServices::s_XMLNamespaceWithSeparator);
-                    theDeclaration.append(thePrefix);
+                        XalanDOMString&     theDeclaration = theGuard.get();
 
-                    addResultAttribute(
-                        getPendingAttributesImpl(),
-                        theDeclaration,
-                        theNamespace,
-                        true,
-                        locator);
+                        theDeclaration.assign(DOMServices::s_XMLNamespaceWithSeparator);
+
+                        if (getResultNamespaceForPrefix(thePrefix) == 0)
+                        {
+                            theDeclaration.append(thePrefix);
+                        }
+                        else
+                        {
+                            // The prefix means something else...
+                            m_executionContext->getUniqueNamespaceValue(theNewName);
+
+                            theDeclaration.append(theNewName);
+                        }
+
+                        addResultAttribute(
+                            getPendingAttributesImpl(),
+                            theDeclaration,
+                            theNamespace,
+                            true,
+                            locator);
+                    }
+
+                    if (theNewName.empty() == false)
+                    {
+                        theNewName.append(1, XalanUnicode::charColon);
+                        theNewName.append(node.getLocalName());
+                    }
                 }
 
                 addResultAttribute(
                         getPendingAttributesImpl(),
-                        node.getNodeName(),
+                        theNewName.empty() == true ? node.getNodeName() : theNewName,
                         node.getNodeValue(),
                         true,
                         locator);
